@@ -48,7 +48,8 @@ Deprecated(cfg, s, cat) ==
 \* options of a scheme under a category: the default category's, overridden key by key
 Merge(a, b) == [minA |-> IF b.minA # Unset THEN b.minA ELSE a.minA, minB |-> Unset,
                 maxA |-> IF b.maxA # Unset THEN b.maxA ELSE a.maxA, maxB |-> Unset,
-                def  |-> IF b.def # Unset THEN b.def ELSE a.def, rounds |-> Unset,
+                def  |-> IF b.def # Unset THEN b.def ELSE a.def,
+                rounds |-> IF b.rounds # Unset THEN b.rounds ELSE a.rounds,      \* the `rounds` alias (fallback for the three above)
                 varyK |-> IF b.varyK # "unset" THEN b.varyK ELSE a.varyK,
                 varyV |-> IF b.varyK # "unset" THEN b.varyV ELSE a.varyV]
 VaryOnly(k) == [NoKw EXCEPT !.varyK = k.varyK, !.varyV = k.varyV]
